@@ -145,11 +145,8 @@ impl NodeProcessor for RemoveUnusedVariableProcessor {
                                 }
                             }
 
-                            let mut values: Vec<_> = remaining_unassigned_variables
-                                .iter()
-                                .map(|_| Expression::nil())
-                                .collect();
-                            let mut variables = remaining_unassigned_variables;
+                            let mut values = Vec::new();
+                            let mut variables = Vec::new();
 
                             for (mut identifiers, value) in assignments {
                                 let mut last_popped = None;
@@ -172,6 +169,13 @@ impl NodeProcessor for RemoveUnusedVariableProcessor {
                                     }
                                 }
                             }
+
+                            values.extend(
+                                remaining_unassigned_variables
+                                    .iter()
+                                    .map(|_| Expression::nil()),
+                            );
+                            variables.extend(remaining_unassigned_variables);
 
                             if variables.is_empty() {
                                 let extra_values: Vec<_> =
